@@ -304,6 +304,13 @@ func (c *checker) step(e *sim.Ev) {
 	case strings.HasPrefix(e.K, "x."):
 		c.ext.netEvent(c, e)
 	case e.K == "spin":
+		if c.server(e.S).shutdown {
+			// Shutdown() has been called on the sender: its replication routines skip their back-off
+			// (they select on shutdownCh) until the main loop closes their stop channels a moment
+			// later. Not a catch-up that repeats itself, the server is going away.
+			c.cov("spin-during-shutdown")
+			return
+		}
 		c.spin = append(c.spin, *e)
 		c.violate("C12", "zero-time-spin", e.Seq, "link %s->%s delivered %d RPCs without virtual time advancing (pattern %s): catch-up repeats the same transfer", e.S, e.X, e.A, e.Y)
 	}
